@@ -217,6 +217,8 @@ def locate(root, a, b, typ=None, obf=None, value=None):
             return "found", n
     for s, e, n in nodes:
         if s <= a and b <= e and (s, e) != (a, b) and n.value.lower() != n.original.lower():
+            if typ is not None and obf is not None and n.type == typ and n.obfuscation == obf:
+                continue  # the expected decoder's own result with a wrong span is not "another result shadowing it"
             return "shadowed", (n.type, n.obfuscation, s, e)
     over = [(n.type, n.obfuscation, s, e, n.value[:40]) for (s, e, n) in nodes if s < b and a < e]
     return "missing", over[:8]
